@@ -42,9 +42,9 @@ def main():
             dst = OUT / sid
             dst.mkdir(exist_ok=True)
             shutil.copy(sd / 'patch.diff', dst / 'patch.diff')
-            demo = (sd / 'demo.py').read_text().replace(f'/tmp/wt/{prop}', '/repo')
+            demo = (sd / 'demo.py').read_text().replace(f'/tmp/wt/{prop}', '/repo').replace('/tmp/wt/stubs', '/verif/seeded/_stubs')
             (dst / 'demo.py').write_text(demo)
-            notes = (sd / 'notes.md').read_text().replace(f'/tmp/wt/{prop}', '/repo') if (sd / 'notes.md').exists() else ''
+            notes = (sd / 'notes.md').read_text().replace(f'/tmp/wt/{prop}', '/repo').replace('/tmp/wt/stubs', '/verif/seeded/_stubs') if (sd / 'notes.md').exists() else ''
             (dst / 'notes.md').write_text(notes)
             files = sorted(set(re.findall(r'^\+\+\+ b/(.*)$', (sd / 'patch.diff').read_text(), flags=re.M)))
             caught = {}
